@@ -24,7 +24,7 @@ CFG = dict(
                  "a revision identifies the content of a key (the code swallows an update whose revision equals the cached one): "
                  "hypothesis inputs_ok of c26_converges_content, shown necessary by c26_content_hypothesis_needed; without it convergence is of revisions",
                  "the results channel delivers each cache's results in order (FIFO), in any interleaving, with sendUpdates flushes at any points",
-                 "revisions are decimal strings; the empty revision string is not generated",
+                 "revisions are decimal strings or the empty string (modelled as 2^64); the revision argument passed to List/Watch is not observed",
                  "shutdown (Stop) deletions are outside the observation"],
 )
 
@@ -40,6 +40,8 @@ MANIFEST = dict(
          "revision determines content; deletion of keys that vanished during a resync; no OnUpdates while the last status "
          "is WaitForDatastore; InSync only after every cache completed a list), plus a correspondence run of the model and a "
          "specification oracle against the real watcherSyncer driven deterministically through a scripted fake client. "
-         "Partial: the boolean oracle accepting every model run (c26_model_meets_spec_partial proves its semantic clauses).",
+         "c26_model_meets_spec: the boolean oracle accepts every scripted model run and every prefix (map order a permutation, "
+         "revision determines content). The empty revision string is generated; the deliberate 'BUG: List returned items with "
+         "empty/zero revision' panic is observed through a logrus hook and checked against the exact guard.",
     note="Trusted: Coq kernel; hand-written model tied to the code only by the correspondence run; Go driver and shim.",
 )
